@@ -9,7 +9,10 @@
 package sim
 
 import (
+	"bytes"
 	"context"
+	"crypto/sha256"
+	"encoding"
 	"fmt"
 	"sort"
 	"time"
@@ -42,6 +45,7 @@ type Config struct {
 	Crashed []int  // replica ids that are silent from the start
 	Leaders []int  // leader of view v is Leaders[(v-1) mod len]; empty = the repository's round robin
 	Batch   int    // commands per block
+	ActorReuseCmds bool // every other block of the actor re-proposes the commands of an earlier block
 	ActorAuto bool // the actor behaves honestly by default (votes, collects, proposes); scripted actions are the deviations
 	ByView  []ViewSpec // optional Twins-style scenario: partitions (and leader) chosen by the SENDER's view, messages dropped at send time
 }
@@ -124,6 +128,9 @@ type Stack struct {
 	ViewChanges []hotstuff.ViewChangeEvent
 	Execs       []*clientpb.Batch
 	Aborts      []*clientpb.Batch
+	Applied     []*clientpb.Command // commands the application really applied, recovered from the digest (see execMonitor)
+	AppliedErr  string
+	preHash     []byte
 	Received    []Recv // payloads delivered to this stack
 	proposals   int
 }
@@ -297,7 +304,15 @@ func (cl *Cluster) wire(st *Stack) error {
 	st.Prop = consensus.NewProposer(st.EL, st.Cfg, st.BC, st.VS, rs, cq, st.Voter, st.Cache, cm)
 	st.Synch = synchronizer.New(st.EL, lg, st.Cfg, st.Auth, lr, synchronizer.NewFixedDuration(1000*time.Hour),
 		synchronizer.NewTimeoutRuler(st.Cfg, st.Auth), st.Prop, st.Voter, st.VS, snd)
+	// C06 monitor, part 1 (runs BEFORE ClientIO handles the batch): remember the application digest state
+	eventloop.Register(st.EL, func(e clientpb.ExecuteEvent) {
+		if m, ok := st.CIO.Hash().(encoding.BinaryMarshaler); ok {
+			st.preHash, _ = m.MarshalBinary()
+		}
+	}, eventloop.Prioritize())
 	st.CIO = server.NewClientIO(st.EL, lg, st.Cache)
+	// part 2 (registered after ClientIO's own handler, so it runs after it): which commands of the batch were applied?
+	eventloop.Register(st.EL, func(e clientpb.ExecuteEvent) { st.recoverApplied(e.Batch) })
 	eventloop.Register(st.EL, func(c hotstuff.CommitEvent) { st.Commits = append(st.Commits, c.Block) })
 	eventloop.Register(st.EL, func(e hotstuff.ViewChangeEvent) { st.ViewChanges = append(st.ViewChanges, e) })
 	eventloop.Register(st.EL, func(e clientpb.ExecuteEvent) { st.Execs = append(st.Execs, e.Batch) })
@@ -319,6 +334,12 @@ func (cl *Cluster) register(b *hotstuff.Block) {
 	if _, ok := cl.Blocks[k]; !ok {
 		cl.Blocks[k] = b
 		cl.AllBlk = append(cl.AllBlk, b)
+		// a proposer signs its own block before the block is disseminated (and thereby registered): classify late
+		for i := len(cl.Signs) - 1; i >= 0 && i >= len(cl.Signs)-8; i-- {
+			if r := &cl.Signs[i]; r.Kind != "vote" && string(r.Msg) == k {
+				r.Kind, r.Block, r.View = "vote", b, b.View()
+			}
+		}
 		for _, c := range b.Commands().GetCommands() {
 			if c.ClientID >= 1 && c.ClientID <= 3 && c.SequenceNumber > cl.maxProposed[c.ClientID-1] {
 				cl.maxProposed[c.ClientID-1] = c.SequenceNumber
@@ -736,4 +757,38 @@ func SortedIDs(m map[hotstuff.ID]bool) []int {
 	}
 	sort.Ints(l)
 	return l
+}
+
+
+// recoverApplied finds the in-order subset of the batch whose data, written to the digest state saved before the batch
+// was handled, yields the application's new digest. The duplicate filter of the code under test is thereby observed, not
+// re-implemented. Commands carry unique data, so the subset is unique.
+func (st *Stack) recoverApplied(batch *clientpb.Batch) {
+	cmds := batch.GetCommands()
+	if st.preHash == nil || len(cmds) > 12 {
+		st.AppliedErr = "cannot observe the digest state"
+		return
+	}
+	now := st.CIO.Hash().Sum(nil)
+	for mask := 0; mask < 1<<uint(len(cmds)); mask++ {
+		h := sha256.New()
+		if err := h.(encoding.BinaryUnmarshaler).UnmarshalBinary(st.preHash); err != nil {
+			st.AppliedErr = err.Error()
+			return
+		}
+		for i, c := range cmds {
+			if mask&(1<<uint(i)) != 0 {
+				_, _ = h.Write(c.Data)
+			}
+		}
+		if bytes.Equal(h.Sum(nil), now) {
+			for i, c := range cmds {
+				if mask&(1<<uint(i)) != 0 {
+					st.Applied = append(st.Applied, c)
+				}
+			}
+			return
+		}
+	}
+	st.AppliedErr = fmt.Sprintf("after a batch of %d commands the digest equals no in-order subset of the batch applied to the previous state", len(cmds))
 }
